@@ -60,6 +60,15 @@ def clamp : Variant → Buf → Nat → Except Err (Buf × Nat)
       .ok (buf', maxLen - 1)
     else .ok (buf, ret)
 
+/-- the common part of every built-in handler's `write`: format into `char buf[4096]`
+(`line` = what the formatter's `snprintf` was asked to print), fixed: clamp, then
+`fwrite(buf, 1, n, fp)`; returns the bytes `fwrite` reads and `n` -/
+def emit (v : Variant) (line : Bytes) : Except Err (Bytes × Nat) := do
+  let (buf, ret) := snprintfBuf maxLen line
+  let (buf, n) ← clamp v buf ret
+  let bytes ← readRange buf n
+  .ok (bytes, n)
+
 /-- `muggle_log_msg_t` -/
 structure Msg where
   hd      : Meta
@@ -121,9 +130,7 @@ def handlerWrite (v : Variant) (h : Handler) (m : Msg) : Except Err (Handler × 
     match h.fmt with
     | none => .ok (h, -1)
     | some k => do
-      let (buf, ret) := snprintfBuf maxLen (formatted k m.hd m.payload)
-      let (buf, n) ← clamp v buf ret
-      let bytes ← readRange buf n
+      let (bytes, n) ← emit v (formatted k m.hd m.payload)
       .ok ({ h with out := h.out ++ chunksOf kind m.level bytes }, (n : Nat))
 
 /-- `muggle_log_handler_should_write` -/
@@ -203,6 +210,15 @@ def specRecs (h : Handler) (m : Msg) : List Rec :=
     | none => []
     | some k => chunksOf kind m.level (cut (formatted k m.hd m.payload))
 
+/-- specified return value of `handler->write`: the number of bytes written -/
+def specRet (h : Handler) (m : Msg) : Int :=
+  match h.kind with
+  | .cap => 0
+  | _ =>
+    match h.fmt with
+    | none => -1
+    | some k => ((cut (formatted k m.hd m.payload)).length : Nat)
+
 /-- the specified new output of every handler for one call -/
 def specLog (lg : Logger) (e : Env) (c : Call) : List (List Rec) :=
   lg.handlers.map fun h => if c.level ≥ h.level then specRecs h (mkMsg lg e c) else []
@@ -210,5 +226,12 @@ def specLog (lg : Logger) (e : Env) (c : Call) : List (List Rec) :=
 /-- the logger's threshold is not above any handler's (true as long as levels are set
 before `add_handler`, which is how every caller in the repository does it) -/
 def Logger.Wf (lg : Logger) : Prop := ∀ h ∈ lg.handlers, lg.lowest ≤ h.level
+
+/-- a single thread making a sequence of calls through the synchronous logger -/
+def runSync (v : Variant) : Logger → List (Env × Call) → Except Err Logger
+  | lg, [] => .ok lg
+  | lg, (e, c) :: cs => do
+    let (lg', _) ← syncLog v lg e c
+    runSync v lg' cs
 
 end MgModel.C16
